@@ -195,7 +195,8 @@ def run_property(prop, tier="quick", configs=None, repo=None, quiet=False, targe
             with cx.ob(f"{prop}.run", "R-SHAPE", "rule module ran to completion") as ob_:
                 ob_.fail("undecidable-shape", "checker-error/run", f"checker error outside an obligation (fail closed): {e!r}\n{traceback.format_exc()[-600:]}", prop)
         extraction[cfg] = {
-            "normalisation": {"new_functions_inlined": norm["new_functions"], "sites": norm["inlined_sites"], "left_as_calls": [list(x) for x in norm["not_inlined"]][:20]},
+            "normalisation": {"new_functions_inlined": norm["new_functions"], "sites": norm["inlined_sites"], "left_as_calls": [list(x) for x in norm["not_inlined"]][:20],
+                              "renames_undone": norm.get("renamed", [])},
             "facts_dir": os.path.relpath(d, VERIF) if d.startswith(VERIF) else d, "extract_wall_s": round(wall, 1),
             "crates": {k: v["n_bodies"] for k, v in crates.items()},
             "rustc": next(iter(crates.values()))["rustc"],
